@@ -125,6 +125,8 @@ func main() {
 		var ops []string
 		if i%4 == 3 {
 			ops = g.OfferDeletionHistory()
+		} else if i%4 == 2 {
+			ops = g.QuietAddressHistory()
 		} else {
 			ops = g.ConflictHistory(6 + rng.Intn(25))
 		}
